@@ -11,7 +11,7 @@ mutual
     | .typedef tn _ => tn.insts ≠ [] ∧ TnWF tn
     | .func tmpl ret _ args => TmplWF tmpl ∧ RetWF ret ∧ ArgsWF args
     | .enum e => EnumWF e
-    | .var v => TyWF v.ctype
+    | .var v => TyWF v.ctype ∧ v.name ≠ "operator"
     | .ns _ ds => DeclsWF ds
   def DeclsWF : List Decl → Prop
     | [] => True
@@ -74,7 +74,7 @@ theorem declLex_start (d : Decl) (hwf : DeclWF d) (Y : List Lexeme) : DeclStart 
   | enum e => simp only [declLex, enumLex, List.append_assoc]; exact declStart_enumKw _ _
   | var v =>
     simp only [declLex, List.append_assoc]
-    exact declStart_starts (startsOK_append (tyLex_starts _ hwf) _)
+    exact declStart_starts (startsOK_append (tyLex_starts _ hwf.1) _)
   | ns name ds => simp only [declLex, List.cons_append]; exact declStart_word _ _
 
 /-! #### skipping the keyword tests in front of a class / function / variable -/
@@ -184,7 +184,7 @@ theorem pdecl_func (tmpl : Option Template) (ret : RetType) (name : String) (arg
     kw_no_starts hM "virtual" (by decide), kw_no_starts hM "class" (by decide), h1, h2, answerL_sym, ansSym, hret.2]
 
 /-- global / namespace variables -/
-theorem pdecl_var (v : VarDecl) (hty : TyWF v.ctype) (n : Nat) (hn : tyFuel v.ctype ≤ n) (Y : List Lexeme) :
+theorem pdecl_var (v : VarDecl) (hty : TyWF v.ctype) (hname : v.name ≠ "operator") (n : Nat) (hn : tyFuel v.ctype ≤ n) (Y : List Lexeme) :
     runL (pdecl (n + 1)) (declLex (.var v) ++ Y) = .ok (.var v) Y := by
   obtain ⟨ty, name, d⟩ := v
   have hM : StartsOK (tyLex ty ++ .word name :: (dfltLex d ++ .sym ";" :: Y)) := startsOK_append (tyLex_starts _ hty) _
@@ -198,11 +198,11 @@ theorem pdecl_var (v : VarDecl) (hty : TyWF v.ctype) (n : Nat) (hn : tyFuel v.ct
   | none =>
     simp only [dfltLex, List.nil_append] at h1 h2 hM htl ⊢
     simp (config := {decide := true}) [runL_bind, htl, classOrTail, declTail, runL_probe, runL_need, runL_expect,
-      kw_no_starts hM "virtual" (by decide), kw_no_starts hM "class" (by decide), h1, h2, answerL_sym, ansSym, ansWord_lit]
+      kw_no_starts hM "virtual" (by decide), kw_no_starts hM "class" (by decide), h1, h2, answerL_sym, ansSym, ansWord_lit, hname]
   | some dv =>
     simp only [dfltLex, List.cons_append, List.nil_append] at h1 h2 hM htl ⊢
     simp (config := {decide := true}) [runL_bind, htl, classOrTail, declTail, runL_probe, runL_need, runL_expect,
-      kw_no_starts hM "virtual" (by decide), kw_no_starts hM "class" (by decide), h1, h2, answerL_sym, ansSym, ansWord_lit]
+      kw_no_starts hM "virtual" (by decide), kw_no_starts hM "class" (by decide), h1, h2, answerL_sym, ansSym, ansWord_lit, hname]
 
 /-- typedefs -/
 theorem pdecl_typedef (tn : Typename) (name : String) (hins : tn.insts ≠ []) (hwf : TnWF tn) (n : Nat)
@@ -298,7 +298,7 @@ theorem pdecl_lex : ∀ (n : Nat) (d : Decl), declFuel d ≤ n → DeclWF d → 
     exact pdecl_enum e hwf m (by omega) Y
   | var v =>
     simp only [declFuel] at hf
-    exact pdecl_var v hwf m (by omega) Y
+    exact pdecl_var v hwf.1 hwf.2 m (by omega) Y
   | ns name ds =>
     simp only [declFuel] at hf
     have hl := pdecls_lex_of (m + 1) (fun m' hm' d' => ih m' hm' d') ds hwf m (by omega) (by omega) Y
